@@ -6,11 +6,11 @@ CONSTANTS Pkgs <- P2
  RootPkg = "none"
  HashCoversSum = FALSE
  SaveAlways = TRUE
- KeepAfterDefers = TRUE
- BehChoices <- Beh2
+ KeepAfterDefers = FALSE
+ BehChoices <- Beh2Defer
  ArgsMenu <- Args2
- MaxRuns = 3
- MaxEnv = 2
+ MaxRuns = 1
+ MaxEnv = 1
  MaxSrc = 1
  ConvergeBound = 3
 SPECIFICATION Spec
